@@ -86,6 +86,12 @@ func (c *C18Case) text() string {
 				} else {
 					fmt.Fprintf(&b, "    lo.In.Act(%d)\n", ch.ID)
 				}
+			case "lit": // right-hand side is a bare literal
+				if ch.Fails != "" {
+					fmt.Fprintf(&b, "    plainint = %d\n", ch.ID)
+				} else {
+					fmt.Fprintf(&b, "    a%d = %d\n", ch.ID, ch.ID*10)
+				}
 			case "func-local-arg": // argument is a rule local assigned before the block
 				if ch.Fails != "" {
 					fmt.Fprintf(&b, "    bad(%d)\n", ch.ID)
@@ -101,7 +107,7 @@ func (c *C18Case) text() string {
 				continue
 			}
 			switch ch.Kind {
-			case "local":
+			case "local", "lit":
 				fmt.Fprintf(&b, "  rd(%d, a%d)\n", ch.ID, ch.ID)
 			case "field":
 				fmt.Fprintf(&b, "  rd(%d, H.F%d)\n", ch.ID, ch.ID%8)
@@ -136,7 +142,10 @@ func init() {
 				var blk []C18Child
 				for k := 0; k < n; k++ {
 					id++
-					kind := []string{"local", "local", "field", "func", "method", "three", "method-local", "three-local", "func-local-arg"}[uni(t, fmt.Sprintf("kind%d_%d", bi, k), 0, 8)]
+					kind := []string{"local", "local", "field", "func", "method", "three", "method-local", "three-local", "func-local-arg", "lit", "lit"}[uni(t, fmt.Sprintf("kind%d_%d", bi, k), 0, 10)]
+					if pct(t, fmt.Sprintf("alllit%d", bi), 8) {
+						kind = "lit" // blocks made of literal assignments only
+					}
 					if kind == "field" {
 						if usedField[id%8] {
 							kind = "local"
@@ -194,6 +203,7 @@ func checkC18(ci interface{}, x *Ctx) {
 	apis["H"] = host
 	apis["O"] = obj
 	lobj := &c18Obj{act: act, In: &c18Obj{act: act}}
+	apis["plainint"] = int64(1) // plain-injected scalar: not assignable
 	apis["mkobj"] = func() *c18Obj { return lobj }
 	apis["act2"] = func(id, x int64) int64 { return act(id) }
 	text := c.text()
@@ -277,8 +287,9 @@ func checkC18(ci interface{}, x *Ctx) {
 		for _, ch := range blk {
 			id := fmt.Sprint(ch.ID)
 			ran := len(seqOf["V:"+id]) + len(seqOf["B:"+id])
-			if ch.Kind == "func" && ch.Fails == "type" {
-				// wrong arity: the call fails before the function body runs
+			if (ch.Kind == "func" && ch.Fails == "type") || ch.Kind == "lit" {
+				// wrong arity: the call fails before the function body runs; literal
+				// assignments call nothing
 				ran = -1
 			}
 			if !reached {
@@ -292,7 +303,7 @@ func checkC18(ci interface{}, x *Ctx) {
 				fail("child-count:"+ch.Kind, "child %s (%s) of block %d ran %d times, want exactly once", id, ch.Kind, bi, ran)
 				return
 			}
-			if ch.Fails == "" || (ch.Fails == "type" && (ch.Kind == "local" || ch.Kind == "field")) {
+			if ch.Kind != "lit" && (ch.Fails == "" || (ch.Fails == "type" && (ch.Kind == "local" || ch.Kind == "field"))) {
 				d := seqOf["D:"+id]
 				if len(d) != 1 {
 					fail("child-unfinished:"+ch.Kind, "child %s (%s) of block %d had not finished when Execute returned (the block must wait for all of its statements)", id, ch.Kind, bi)
@@ -321,7 +332,7 @@ func checkC18(ci interface{}, x *Ctx) {
 				return
 			}
 			for _, ch := range blk {
-				if ch.Kind != "local" && ch.Kind != "field" {
+				if ch.Kind != "local" && ch.Kind != "field" && ch.Kind != "lit" {
 					continue
 				}
 				rd := -1
